@@ -116,8 +116,28 @@ static void run_throw_inside_submachine() {
   report("throw-inside-submachine.caught-at-its-level-outer-may-react-not-wedged", !escaped && g_log == "THROW CAUGHTsub outer | j " && (r & 1) && (r2 & 1), "C12,C07,C13",
          "r=" + std::to_string(r) + " r2=" + std::to_string(r2) + " escaped=" + std::to_string(escaped) + " log=[" + g_log + "]");
 }
+// ---- the entry behaviour of a target that owns a COMPLETION transition throws: the transition is aborted - "no further behaviour of the
+// aborted transition runs" - so the completion transition of the never-entered target must not fire either (C12, C10) ----
+struct CE_ : state_machine_def<CE_> {
+  struct S0 : state<> {};
+  struct S1 : state<> { template<class E,class F> void on_entry(E const&,F&){ g_log += "S1.entry THROW "; throw std::runtime_error("entry"); } template<class E,class F> void on_exit(E const&,F&){ g_log += "S1.exit "; } };
+  struct S2 : state<> { template<class E,class F> void on_entry(E const&,F&){ g_log += "S2.entry "; } };
+  struct ActC { template<class E,class F,class S,class T> void operator()(E const&,F&,S&,T&){ g_log += "completion "; } };
+  typedef S0 initial_state;
+  struct transition_table : mpl::vector< Row<S0,e,S1,none,none>, Row<S1,none,S2,ActC,none> > {};
+  template<class F,class Ev> void no_transition(Ev const&,F&,int){ g_log += "NT "; }
+  template<class F,class Ev> void exception_caught(Ev const&,F&,std::exception&){ g_log += "CAUGHT "; }
+};
+typedef BE<CE_> CE;
+static void run_entry_of_completion_source_throws() {
+  CE m; m.start(); g_log.clear();
+  bool escaped = false; int r = -1; try { r = (int)m.process_event(e()); } catch (...) { escaped = true; }
+  report("entry-of-a-state-with-a-completion-transition-throws.no-completion-afterwards", !escaped && g_log == "S1.entry THROW CAUGHT " && !(r & 1), "C12,C10",
+         "r=" + std::to_string(r) + " escaped=" + std::to_string(escaped) + " log=[" + g_log + "]");
+}
 int main(int argc, char** argv) {
   if (argc > 1) g_only = argv[1];
+  run_entry_of_completion_source_throws();
   run_throw_inside_submachine();
   run<msm::active_state_switch_after_entry>("after_entry", false);
   run<msm::active_state_switch_before_transition>("before_transition", true);
